@@ -70,6 +70,12 @@ def domain(width):
         b = D.atom("beta", "float", None, 0.5)
         b["doc"] = exact(w - 30 + delta, "q") + ". Defaults to 0.5. Larger values are cut off"
         irs.append(("w.mid%d" % delta, D.make_ir([("alpha", a), ("beta", b)], None, summary="Summary.")))
+    # prose that itself carries the default sentence at its END, swept finely: with default text OFF the emitters remove the sentence - before or after
+    # wrapping must not matter (the break may fall between "Defaults" and "to")
+    for delta in range(0, 34):
+        a = D.atom("alpha", "int", None, 4)
+        a["doc"] = exact(w - 40 + delta, "p") + ". Defaults to 4"
+        irs.append(("w.end%d" % delta, D.make_ir([("alpha", a)], None, summary="Summary.")))
     return irs
 
 
@@ -86,9 +92,12 @@ def main():
         print(json.dumps(res))
         return
     variants = [(k, {}) for k in R.KINDS] + [("function", {"inline_types": False}), ("method", {"inline_types": False})]  # types written in the docstring too
+    variants += [(k, {"emit_default_doc": False}) for k in ("argparse", "class", "function", "rest")]  # default text off: the sentence in the prose is removed
     for label, ir in domain(int(width) if width else None):
         for kind, extra in variants:
-            if extra and not label.startswith(("w.typ", "w.fine", "w.s0")):
+            if "inline_types" in extra and not label.startswith(("w.typ", "w.fine", "w.s0")):
+                continue
+            if "emit_default_doc" in extra and not label.startswith(("w.mid", "w.end")):
                 continue
             o_w = dict(R.default_opts(kind), word_wrap=True, **extra)
             o_n = dict(R.default_opts(kind), word_wrap=False, **extra)
@@ -115,7 +124,7 @@ def main():
                     name = d["path"].split(".")[1] if d["path"].startswith("params.") else ""
                     d["type_line_len"] = len(d["want"]) + (len(":type %s: ``````" % name) if name else len(":rtype: ``````"))
                     d["typ_ws_only"] = "".join(d["want"].split()) == "".join(d["got"].split())
-                d.update(label=label, kind=kind + ("+doc-types" if extra else ""), wrapped_changed=changed)
+                d.update(label=label, kind=kind + ("+doc-types" if "inline_types" in extra else "+no-default-text" if extra else ""), wrapped_changed=changed)
                 d["want"], d["got"] = repr(d["want"])[:160], repr(d["got"])[:160]
                 res["fails"].append(d)
     print(json.dumps(res))
